@@ -188,11 +188,66 @@ def checkC10 (p : PProject) (impl : Json) : PropOut := Id.run do
   return { model := mview, implView := iview, implFails := fails, nontrivial := nBad > 0 || nWl > 0,
            notes := [s!"d:well-linked={nWl}", s!"d:ill-linked={nBad}"] ++ (if valErr ≠ "" then ["d:hard-error"] else []) }
 
+/-! ### C18 -/
+
+def valueCodes : List String :=
+  ["route-conflict", "linker-multiple-parameter-refs", "unsupported-feature", "annotation-value-invalid"]
+
+def checkC18 (p : PProject) (impl : Json) : PropOut := Id.run do
+  let mut fails : List String := []
+  let diags := (jarrD impl "diags").toList
+  let spans := (jarrD impl "_spans").toList
+  let mut seen : List String := []
+  let mut nValue := 0
+  for d in diags do
+    let ctrl := jstrD d "controller"; let ent := jstrD d "entity"; let code := jstrD d "code"
+    let rng := (jarrD d "range").toList.filterMap (·.getNat?.toOption)
+    let key := s!"{ctrl}|{ent}|{code}|{rng}|{jstrD d "_message"}"
+    -- no diagnostic is reported twice
+    if seen.contains key then fails := fails ++ [s!"duplicate-diagnostic:{ctrl}.{ent}:{code}"]
+    seen := seen ++ [key]
+    match spans.find? fun s => jstrD s "controller" = ctrl && jstrD s "entity" = ent with
+    | none => fails := fails ++ [s!"no-span:{ctrl}.{ent}"]
+    | some sp =>
+      -- the file that contains the offending controller / method
+      if jstrD d "file" ≠ jstrD sp "file" then fails := fails ++ [s!"wrong-file:{ctrl}.{ent}:{code}:{jstrD d "file"}"]
+      match rng with
+      | [sl, sc, el, ec] =>
+        if !(jboolD d "rangeInFile") then fails := fails ++ [s!"range-outside-file:{ctrl}.{ent}:{code}"]
+        if !(sl < el || (sl = el && sc ≤ ec)) then fails := fails ++ [s!"start-after-end:{ctrl}.{ent}:{code}"]
+        -- inside the comment or declaration it concerns
+        let a := (jnat sp "start").toOption.getD 0; let b := (jnat sp "end").toOption.getD 0
+        if !(a ≤ sl && el ≤ b) then fails := fails ++ [s!"range-outside-entity:{ctrl}.{ent}:{code}:{sl}-{el} not in {a}-{b}"]
+      | _ => fails := fails ++ [s!"negative-or-malformed-range:{ctrl}.{ent}:{code}"]
+    -- a diagnostic about an annotation's value covers text equal to that value
+    let covered := jstrD d "covered"
+    let annots : List Annot := (p.controllers.filter (·.name = ctrl)).flatMap fun c =>
+      if ent = "" then c.annots else (c.methods.filter (·.m.name = ent)).flatMap (·.m.annots)
+    if valueCodes.contains code then
+      nValue := nValue + 1
+      if !(annots.any (·.value = covered)) then fails := fails ++ [s!"value-range-text:{ctrl}.{ent}:{code}:'{covered}'"]
+    if code = "linker-route-missing-path-reference" || code = "linker-duplicate-url-parameter" then
+      nValue := nValue + 1
+      if !(covered.startsWith "{" && covered.endsWith "}" && annots.any fun a => a.name = "Route" && (a.value.splitOn covered).length > 1) then
+        fails := fails ++ [s!"url-param-range-text:{ctrl}.{ent}:'{covered}'"]
+  -- … nor in the command's error text (C18-F1: pinned by test/diagnostics: an entity is printed once per error it carries)
+  let dup := (jnat impl "dupEntityBlocks").toOption.getD 0
+  if dup > 0 then fails := fails ++ [s!"C18-F1:entity-block-repeated-in-error-text:{dup}"]
+  -- codes and severities: those of the validator model (shared with C10)
+  let md := modelDiags p
+  let mview : Json := match md with
+    | some ds => Json.arr (sortDiags ds).toArray
+    | none => Json.str "hard-error"
+  let iview : Json := if jstrD impl "validateErr" ≠ "" then Json.str "hard-error" else Json.arr (sortDiags (implDiags impl)).toArray
+  return { model := mview, implView := iview, implFails := fails, nontrivial := !diags.isEmpty,
+           notes := [s!"d:diagnostics={diags.length}", s!"d:value-diagnostics={nValue}"] }
+
 def projHandler : Handler := fun prop input impl => do
   let p := parseProject input
   let implJ := impl.getD Json.null
   let out : PropOut ← match prop with
     | "C10" => pure (checkC10 p implJ)
+    | "C18" => pure (checkC18 p implJ)
     | q => throw s!"mode proj: no check for property {q}"
   let tag (pre : String) (f : String) :=
     if f.length > 4 && f.get 0 = 'C' && (f.splitOn "-F").length > 1 && (f.splitOn ":").length > 1 && ((f.splitOn ":")[0]!).length ≤ 8
